@@ -28,4 +28,14 @@ def run(tier, seed):
              (A.model_get('C10'),)]
     run_contracts(pack, items)
     A.bijection_lemmas(pack, 'C10')
+    from contracts.packutil import native_guard
+    from contracts import bounded_addressing as BA
+    name = 'C10/andes/system.py:System.set_address;set_dae_names;link_ext_param/bounded:one-slot-per-variable,named-after-it,links-follow-idx'
+    r = native_guard(pack, name, lambda: BA.run(tier))
+    if r is not None:
+        n, bad = r
+        pack.bounded.append({'function': 'System.setup / set_address / set_dae_names / link_external (end to end)', 'checks': n,
+                             'kind': 'bounded native (stock cases after TDS.init)', 'counted_as_proved': False})
+        if bad:
+            pack.violation(name, {'bounded': True, 'inputs': bad, 'native_cmd': 'contracts/bounded_addressing.py'})
     return pack.finish()
